@@ -308,6 +308,19 @@ theorem li_zero_length_witness :
     rectCoord]
   simp
 
+/-- [T] both hypotheses of `li_collinear_nondegenerate_partial` are needed, each on its own: a zero-length *first*
+operand on a proper second one, and a proper first operand with a zero-length *second* one on it, both give
+`Collinear` with `x = y`. Both inputs run through the real code (`C11.li 1 1 1 1 0 0 2 2`, `C11.li 0 0 2 2 1 1 1 1`,
+in `corpus/C11.ops`): `collinear 1 1 1 1` in either operand order, as the model says — a defect of geo
+(`collinear_intersection` does not special-case a degenerate operand), recorded as open known finding K12;
+the full statement `… = some (.collinear x y) → x ≠ y` is false on the pinned code. -/
+theorem li_collinear_nondegenerate_partial_witness :
+    lineIntersection ⟨1, 1⟩ ⟨1, 1⟩ ⟨0, 0⟩ ⟨2, 2⟩ = some (.collinear ⟨1, 1⟩ ⟨1, 1⟩) ∧
+    lineIntersection ⟨0, 0⟩ ⟨2, 2⟩ ⟨1, 1⟩ ⟨1, 1⟩ = some (.collinear ⟨1, 1⟩ ⟨1, 1⟩) := by
+  refine ⟨li_zero_length_witness, ?_⟩
+  norm_num [lineIntersection, lineBBox, SM.rectNew, rectRect, orient, cross, collinearIntersection,
+    rectCoord]
+  simp
 
 /-- [T] a single point answer is the *only* common point of the two segments
 (`S p ∩ S q = {x}`). -/
